@@ -24,7 +24,7 @@ JOBS_PER_WORKER = 1
 CASE_TIMEOUT_S = 200
 RULE = ("Hypothesis-generated socket sessions on TCP loopback and UNIX sockets (stock, eager, uvloop): message-size "
         "sequences from 1 byte to several MiB, max_bytes 1..1 MiB, full duplex, late/stalled readers with small kernel "
-        "buffers (optionally with the silent peer half-closing while the writer is parked; optionally after a history of several hundred KiB read in pieces of 64..1000 bytes), send_eof/aclose at generated positions, operations after local close, concurrent use of one direction; "
+        "buffers (optionally with the silent peer half-closing while the writer is parked; optionally after a history of several hundred KiB read in pieces of 64..1000 bytes), send_eof/aclose at generated positions, operations after local close (also with a receive() already parked on the closed stream), concurrent use of one direction; "
         "both ends in both roles; non-trivial = more bytes in one direction than the kernel accepts with an idle reader, "
         "or a chunk larger than max_bytes, or duplex traffic; distinct = distinct canonical JSON")
 ASSUMPTIONS = [
